@@ -136,7 +136,7 @@ fn spaces(id: &str, tier: Tier) -> Vec<Box<dyn Space>> {
             v.push(Box::new(scale_family(true)));
             v.push(Box::new(unicode_family()));
             if t {
-                v.push(Box::new(ms_a(3, false)));
+                v.push(Box::new(ms_a_depth3()));
                 v.push(Box::new(ms_b(5, false)));
             }
         }
